@@ -8,3 +8,7 @@
   (ite (= k 13) fn.bexpr.doEqualFloat32
   (ite (= k 14) fn.bexpr.doEqualFloat64
   (ite (= k 24) fn.bexpr.doEqualString fn.nil)))))))
+; C05: the documented table. ==, in, matches, is not empty: false; the rest true.
+(define-fun Disposition ((op Int)) Bool (or (= op 1) (= op 3) (= op 4) (= op 7)))
+(declare-fun strJoin (Sl.Str Str) Str)
+(declare-fun strRepeat (Str Int) Str)
